@@ -1,6 +1,7 @@
 package main
 
 import (
+	"regexp"
 	"encoding/json"
 	"fmt"
 	"math/rand"
@@ -112,6 +113,34 @@ func c17Mutate(r *rand.Rand, q string) string {
 	return strings.Join(toks, " ")
 }
 
+var c17NumRe = regexp.MustCompile(`[0-9]+(?:\.[0-9]+)?(ns|us|ms|s|m|h|d|w)?\b`)
+
+// c17Extreme replaces one or two numeric literals of the query (aggregation parameters, vector values,
+// comparison operands, ranges, offsets) by boundary values of their kind: the parser accepts many of them
+// (any k in 1..MaxInt64 for topk, any float for quantile, ranges up to the int64 nanosecond limit) and the
+// engine then computes, allocates and loops with them.
+func c17Extreme(r *rand.Rand, q string) string {
+	locs := c17NumRe.FindAllStringSubmatchIndex(q, -1)
+	if len(locs) == 0 {
+		return q
+	}
+	for i, n := 0, 1+r.Intn(2); i < n; i++ {
+		locs = c17NumRe.FindAllStringSubmatchIndex(q, -1)
+		if len(locs) == 0 {
+			break
+		}
+		m := locs[r.Intn(len(locs))]
+		var repl string
+		if m[2] >= 0 { // a duration
+			repl = pick(r, []string{"9223372036s", "9223372037s", "2562047h", "106751d", "15250w", "1ns", "0s", "9223372036854775807ns", "1h30m", "999999999999999999999h"})
+		} else {
+			repl = pick(r, []string{"9223372036854775807", "9223372036854775806", "4611686018427387904", "2147483648", "4294967296", "1099511627776", "0", "1", "1e308", "1e-320", "0.9999999999999999", "1.0000000000000002", "9223372036854775808", "1e19", "NaN", "Inf", "00", "1_0"})
+		}
+		q = q[:m[0]] + repl + q[m[1]:]
+	}
+	return q
+}
+
 func c17Gen(r *rand.Rand) c17Case {
 	t := c17Case{Recs: c17Recs(r)}
 	var q string
@@ -123,6 +152,20 @@ func c17Gen(r *rand.Rand) c17Case {
 		mc := MetricCase{E: *genVagg(r, 2, func() *MExpr { return genRangeExpr(r, false) })}
 		if r.Intn(2) == 0 {
 			mc.E = MExpr{Kind: "bin", Op: pick(r, c13Ops), A: genRangeExpr(r, false), B: &MExpr{Kind: "vector", Val: "2"}}
+		}
+		if r.Intn(5) == 0 {
+			// parameters at the boundaries the parser lets through, over a selector that matches everything
+			inner := &MExpr{Kind: "range", Op: pick(r, []string{"count_over_time", "rate", "bytes_over_time"}), RangeS: pick(r, []int64{5, 60, 3600})}
+			switch r.Intn(3) {
+			case 0:
+				mc.E = MExpr{Kind: "vagg", Op: pick(r, []string{"topk", "bottomk"}), A: inner,
+					Param: pick(r, []string{"9223372036854775807", "9223372036854775806", "4611686018427387904", "1099511627776", "4294967296", "2147483648", "1"})}
+			case 1:
+				mc.E = MExpr{Kind: "range", Op: "quantile_over_time", RangeS: 60, Unwrap: &MUnwrap{Label: "v"},
+					Param: pick(r, []string{"0", "1", "0.9999999999999999", "1e-320", "0.5"})}
+			default:
+				mc.E = MExpr{Kind: "bin", Op: pick(r, c13Ops), A: inner, B: &MExpr{Kind: "vector", Val: pick(r, []string{"1e308", "1e-320", "0", "9223372036854775807"})}}
+			}
 		}
 		q = mc.E.Text()
 	default:
@@ -137,6 +180,9 @@ func c17Gen(r *rand.Rand) c17Case {
 		for i, n := 0, 1+r.Intn(2); i < n; i++ {
 			q = c17Mutate(r, q)
 		}
+	}
+	if r.Intn(4) == 0 {
+		q = c17Extreme(r, q)
 	}
 	t.Query = q
 	// documents of the kind the query's parser stage reads
